@@ -27,6 +27,7 @@ import (
 	"github.com/sirupsen/logrus"
 
 	"verif/harness/lib"
+	"verif/harness/sigtrace"
 )
 
 type ctxKey struct{}
@@ -45,15 +46,15 @@ type engine struct {
 
 // world is one scenario run.
 type world struct {
-	e      *engine
-	srv    *signaling_rpc_server.Server
-	mtx    sync.Mutex
-	log    []string // raw lines: hook lines and "tx …" lines, in real-time order
-	calls  map[string]int
-	scalls []*sessStream
-	lcalls []*listenStream
-	subs   []*submission
-	mon    []string
+	e        *engine
+	srv      *signaling_rpc_server.Server
+	mtx      sync.Mutex
+	log      []string // raw lines: hook lines and "tx …" lines, in real-time order
+	calls    map[string]int
+	scalls   []*sessStream
+	lcalls   []*listenStream
+	subs     []*submission
+	mon      []string
 	lastSnap string
 }
 
@@ -257,201 +258,27 @@ func (w *world) quiesce(d time.Duration) {
 
 // canonical converts the raw log to the driver's trace.
 func (w *world) canonical() (string, string) {
-	w.lastSnap = ""
 	w.mtx.Lock()
 	lines := append([]string(nil), w.log...)
 	w.mtx.Unlock()
-	attCall := map[string]int{}
-	var toks []string
-	validIdx := map[int]int{}
-	kvOf := func(line, k string) string {
-		i := strings.Index(line, " "+k+"=")
-		if i < 0 {
-			if strings.HasPrefix(line, k+"=") {
-				i = -1
-			} else {
-				return ""
-			}
-		}
-		rest := line[i+len(k)+2:]
-		if j := strings.IndexByte(rest, ' '); j >= 0 {
-			rest = rest[:j]
-		}
-		return rest
-	}
-	optU := func(s string) string { return s }
-	att := func(s string) string {
-		if s == "nil" {
-			return "nil"
-		}
-		f := strings.Split(s, "/")
-		c, ok := attCall[f[0]]
-		cs := "?"
-		if ok {
-			cs = strconv.Itoa(c)
-		}
-		return fmt.Sprintf("%s/%s/%s/%s/%s", cs, optU(f[1]), optU(f[2]), optU(f[3]), optU(f[4]))
-	}
-	snap := func(line string) string {
-		pi := strings.Index(line, "peers=[")
-		si := strings.Index(line, "] sessions=[")
-		ps := line[pi+7 : si]
-		ss := strings.TrimSuffix(line[si+12:], "]")
-		var pout []string
-		if ps != "" {
-			type pe struct {
-				ix int
-				s  string
-			}
-			var pl []pe
-			for _, p := range strings.Split(ps, ",") {
-				f := strings.Split(p, ":")
-				ix := w.e.pidIx[f[0]]
-				var wants []int
-				if f[4] != "" {
-					for _, x := range strings.Split(f[4], "+") {
-						wants = append(wants, w.e.pidIx[x])
-					}
+	tr, last, cerr := sigtrace.Canonical(sigtrace.Input{Lines: lines, PidIx: w.e.pidIx, Calls: w.calls, SubOf: func(call, k int) (sigtrace.Sub, bool) {
+		for _, x := range w.scalls {
+			if x.id == call {
+				if k >= len(x.valid) {
+					return sigtrace.Sub{}, false
 				}
-				sort.Ints(wants)
-				ws := "-"
-				if len(wants) > 0 {
-					var t []string
-					for _, x := range wants {
-						t = append(t, strconv.Itoa(x))
-					}
-					ws = strings.Join(t, "+")
+				sub := x.valid[k]
+				v := 0
+				if sub.authentic || sub.signer != x.src {
+					v = 1
 				}
-				l := "0"
-				if f[2] == "true" {
-					l = "1"
-				}
-				pl = append(pl, pe{ix, fmt.Sprintf("P%d:%s:%s:%s", ix, l, f[3], ws)})
-			}
-			sort.Slice(pl, func(i, j int) bool { return pl[i].ix < pl[j].ix })
-			for _, p := range pl {
-				pout = append(pout, p.s)
+				return sigtrace.Sub{Mid: sub.mid, Epoch: sub.epoch, Seqno: sub.seqno, V: v, Signer: sub.signer}, true
 			}
 		}
-		var sout []string
-		if ss != "" {
-			type se struct {
-				a, b int
-				s    string
-			}
-			var sl []se
-			for _, p := range strings.Split(ss, ",") {
-				f := strings.Split(p, ":")
-				ab := strings.Split(f[0], "~")
-				a, b := w.e.pidIx[ab[0]], w.e.pidIx[ab[1]]
-				sl = append(sl, se{a, b, fmt.Sprintf("S%d~%d:%s:%s:%s", a, b, f[2], att(f[3]), att(f[4]))})
-			}
-			sort.Slice(sl, func(i, j int) bool { return sl[i].a < sl[j].a || (sl[i].a == sl[j].a && sl[i].b < sl[j].b) })
-			for _, p := range sl {
-				sout = append(sout, p.s)
-			}
-		}
-		w.lastSnap = strings.Join(pout, "|") + "#" + strings.Join(sout, "|")
-		return w.lastSnap
-	}
-	for _, line := range lines {
-		if strings.HasPrefix(line, "TX ") {
-			toks = append(toks, line[3:])
-			continue
-		}
-		ev := kvOf(line, "ev")
-		c, ok := w.calls[kvOf(line, "call")]
-		if !ok {
-			return "", "event for unknown call: " + line
-		}
-		switch ev {
-		case "init":
-			attCall[kvOf(line, "att")] = c
-			toks = append(toks, fmt.Sprintf("init,c=%d,src=%d,dst=%d,snap=%s", c, w.e.pidIx[kvOf(line, "src")], w.e.pidIx[kvOf(line, "dst")], snap(line)))
-		case "send", "sendrej":
-			// which submission is this? the reader processes the SendMsg requests of a stream in order
-			s := w.scalls[0]
-			for _, x := range w.scalls {
-				if x.id == c {
-					s = x
-				}
-			}
-			k := validIdx[c]
-			validIdx[c] = k + 1
-			if k >= len(s.valid) {
-				return "", "send event without a submission: " + line
-			}
-			sub := s.valid[k]
-			v := 0
-			if sub.authentic || sub.signer != s.src {
-				// a message signed by another key verifies, but its signer is not the stream's identity
-				v = 1
-			}
-			if ev == "send" {
-				toks = append(toks, fmt.Sprintf("send,c=%d,e=%s,q=%s,m=%d,v=%d,g=%d,snap=%s", c, kvOf(line, "a"), kvOf(line, "b"), sub.mid, v, sub.signer, snap(line)))
-			} else {
-				toks = append(toks, fmt.Sprintf("send,c=%d,e=%d,q=%d,m=%d,v=%d,g=%d", c, sub.epoch, sub.seqno, sub.mid, v, sub.signer))
-			}
-		case "ack":
-			toks = append(toks, fmt.Sprintf("ack,c=%d,e=%s,k=%s,snap=%s", c, kvOf(line, "a"), kvOf(line, "b"), snap(line)))
-		case "clear":
-			toks = append(toks, fmt.Sprintf("clear,c=%d,e=%s,k=%s,snap=%s", c, kvOf(line, "a"), kvOf(line, "b"), snap(line)))
-		case "loop":
-			toks = append(toks, fmt.Sprintf("loop,c=%d,snap=%s", c, snap(line)))
-		case "end":
-			toks = append(toks, fmt.Sprintf("end,c=%d,snap=%s", c, snap(line)))
-		case "lreg", "lloop", "lusurped", "lend":
-			pidS := kvOf(line, "pid")
-			// is the call's tracker the current map entry?
-			cur := "0"
-			if strings.Contains(line, pidS+":"+kvOf(line, "tkr")+":") {
-				cur = "1"
-			}
-			var wants []int
-			if tw := kvOf(line, "tw"); tw != "" {
-				for _, x := range strings.Split(tw, "+") {
-					wants = append(wants, w.e.pidIx[x])
-				}
-			}
-			sort.Ints(wants)
-			ws := "-"
-			if len(wants) > 0 {
-				var t []string
-				for _, x := range wants {
-					t = append(t, strconv.Itoa(x))
-				}
-				ws = strings.Join(t, "+")
-			}
-			l := "0"
-			if kvOf(line, "tl") == "true" {
-				l = "1"
-			}
-			tk := fmt.Sprintf("%s:%s:%s:%s", l, kvOf(line, "tn"), ws, cur)
-			switch ev {
-			case "lreg":
-				toks = append(toks, fmt.Sprintf("lreg,c=%d,pid=%d,snap=%s,tk=%s", c, w.e.pidIx[pidS], snap(line), tk))
-			case "lloop":
-				wi, ni := 0, 0
-				if x := kvOf(line, "want"); x != "-" {
-					wi = w.e.pidIx[x]
-				}
-				if x := kvOf(line, "notwant"); x != "-" {
-					ni = w.e.pidIx[x]
-				}
-				toks = append(toks, fmt.Sprintf("lloop,c=%d,w=%d,nw=%d,snap=%s,tk=%s", c, wi, ni, snap(line), tk))
-			case "lusurped":
-				toks = append(toks, fmt.Sprintf("lusurped,c=%d,snap=%s,tk=%s", c, snap(line), tk))
-			case "lend":
-				toks = append(toks, fmt.Sprintf("lend,c=%d,snap=%s,tk=%s", c, snap(line), tk))
-			}
-		default:
-			return "", "unknown event: " + line
-		}
-	}
-	if len(toks) == 0 {
-		return "_", ""
-	}
-	return strings.Join(toks, ";"), ""
+		return sigtrace.Sub{}, false
+	}})
+	w.lastSnap = last
+	return tr, cerr
 }
 
 func (w *world) jitter() {
